@@ -488,9 +488,15 @@ func (s Subtitles) WriteToWebVTT(o io.Writer) (err error) {
 	}
 	c = append(c, []byte("\n\n")...)
 
+	// Loop through styles in a stable order
+	var styleIDs []string
+	for id := range s.Styles {
+		styleIDs = append(styleIDs, id)
+	}
+	sort.Strings(styleIDs)
 	var style []string
-	for _, s := range s.Styles {
-		if s.InlineStyle != nil {
+	for _, id := range styleIDs {
+		if s := s.Styles[id]; s.InlineStyle != nil {
 			style = append(style, s.InlineStyle.WebVTTStyles...)
 		}
 	}
